@@ -1,7 +1,9 @@
 """Runs the real FeatureTransformerGeneric on generated frames (under /venv/bin/python, PYTHONPATH=$OUTRANK_REPO).
 
-stdin:  {"cases": [{"preset": str, "columns": [[name, [cell, ...]], ...], "extra": [[name, [cell, ...]], ...]}]}
-        cells are JSON strings (as in the real pipeline) or JSON numbers (int / float columns).
+stdin:  {"cases": [{"preset": str, "columns": [[name, [cell, ...]], ...], "extra": [[name, [cell, ...]], ...],
+                    "dtypes": {name: numpy dtype name}}]}
+        cells are JSON strings (as in the real pipeline) or JSON numbers (int / float columns, stored with the dtype
+        given in "dtypes" - int64, int32, uint64, uint32, int16, float32 - or with pandas' default).
 stdout: one line  @@RESULT {"results": [...]}  with, per case,
   ok / error          constructor or construct_new_features raised (a recorded outcome, judged by the harness)
   collection          [[transformer name, formula string], ...] = transformer_collection in insertion order
@@ -34,7 +36,8 @@ for case in payload["cases"]:
     res = {"ok": False}
     try:
         cols = [c for c, _ in case["columns"]]
-        data = {c: list(v) for c, v in case["columns"]}
+        dtypes = case.get("dtypes", {})
+        data = {c: (pd.Series(list(v), dtype=dtypes[c]) if c in dtypes else list(v)) for c, v in case["columns"]}
         for c, v in case.get("extra", []):
             data[c] = list(v)
         frame = pd.DataFrame(data)
